@@ -72,6 +72,18 @@ Theorem C18_due_enables_wake : forall prog n st d t now, good prog n st -> thr s
 Proof. exact due_enables_wake. Qed.
 Print Assumptions C18_due_enables_wake.
 
+(* PARTIAL (liveness): "every set timer eventually fires" is proved as its safety skeleton — a resting thread
+   has nothing due (below), a due timer enables the wake-up or a signal is under way (above), a pending signal
+   is deliverable, a scan detaches everything due, a detached batch is finite, always has a next step and is
+   fully dispatched before the next wait (C18_fires_if_scanned, C18_batch_fires_before_next_wait,
+   C18_dispatch_progress, C18_dispatch_terminates).  What is missing is the temporal wrapper: a formal
+   fairness assumption on the scheduler and the clock ("the thread is eventually scheduled, cond_timedwait
+   eventually returns once the clock has passed the deadline") and the composition into an "eventually". *)
+Theorem C18_fires_when_due_partial : forall prog n st d now, good prog n st -> thr st = Wait d -> pend st = O ->
+  must_wake st now = false -> forall t, In t (active st) -> ts_le (t_ts t) now = false.
+Proof. exact at_rest_nothing_due. Qed.
+Print Assumptions C18_fires_when_due_partial.
+
 Theorem C18_signal_enabled : forall prog st, (0 < pend st)%nat ->
   exists st', step prog st LSignal = Some (st', ONone) /\ (is_wait (thr st) = true -> sig st' = true).
 Proof. exact signal_enabled. Qed.
